@@ -470,7 +470,7 @@ theorem loop_eq_topo : ∀ (fuel : Nat) (res : Env V) (cs ts : List (String × F
       have hE : (cs.filter (independent (cs.map (·.1)))).isEmpty = false := by
         cases ts with
         | nil => have := hp.length_eq; simp at this; omega
-        | cons c rest =>
+        | cons _ rest =>
           have := head_independent ht hp
           cases h : cs.filter (independent (cs.map (·.1))) with
           | nil => rw [h] at this; simp at this
